@@ -7,6 +7,9 @@ from .values import *  # noqa
 from .engine import Undecided, PyExc, I, id_key
 
 
+NLMUL = z3.Function("nlmul", z3.IntSort(), z3.IntSort(), z3.IntSort())
+
+
 def _is_pint(v):
     return isinstance(v, int)       # includes bool
 
@@ -15,6 +18,12 @@ class OpsMixin:
     # ------------------------------------------------------------------ arithmetic
     def binop(self, op, a, b):
         opn = type(op).__name__
+        if isinstance(a, TInt) or isinstance(b, TInt):
+            d = {"Add": "__add__", "Sub": "__sub__", "Mult": "__mul__", "BitAnd": "__and__", "BitOr": "__or__"}.get(opn)
+            if isinstance(a, TInt) and d and any(d in vars(c) for c in a.cls.__mro__ if c not in (int, object)):
+                return self.call_function(getattr(a.cls, d), [a, b], {})
+            a = a.val if isinstance(a, TInt) else a
+            b = b.val if isinstance(b, TInt) else b
         # bytes / str / list / tuple structural operators
         if is_bytes(a) or is_bytes(b):
             return self.bytes_binop(opn, a, b)
@@ -95,6 +104,9 @@ class OpsMixin:
         if opn == "Sub":
             return self.mkint(ta - tb)
         if opn == "Mult":
+            if getattr(self, "nl_uf", False) and not (isinstance(a, int) or isinstance(b, int)):
+                x, y = sorted([ta, tb], key=lambda t: t.sexpr())
+                return self.mkint(NLMUL(x, y))
             return self.mkint(ta * tb)
         if opn in ("FloorDiv", "Mod"):
             if _is_pint(b):
@@ -249,6 +261,19 @@ class OpsMixin:
     # ------------------------------------------------------------------ comparison
     def compare_vals(self, opn, a, b):
         """-> bool | SBool"""
+        if isinstance(a, TInt) or isinstance(b, TInt):
+            d = {"Lt": "__lt__", "LtE": "__le__", "Gt": "__gt__", "GtE": "__ge__", "Eq": "__eq__", "NotEq": "__ne__"}.get(opn)
+            refl = {"Lt": "__gt__", "LtE": "__ge__", "Gt": "__lt__", "GtE": "__le__", "Eq": "__eq__", "NotEq": "__ne__"}.get(opn)
+
+            def user(t, nm):
+                return nm is not None and isinstance(t, TInt) and any(nm in vars(c) for c in t.cls.__mro__ if c not in (int, object))
+            if opn not in ("Is", "IsNot", "In", "NotIn"):
+                if user(a, d):
+                    return self.truth(self.call_function(getattr(a.cls, d), [a, b], {}))
+                if user(b, refl) and not isinstance(a, TInt):
+                    return self.truth(self.call_function(getattr(b.cls, refl), [b, a], {}))
+                a = a.val if isinstance(a, TInt) else a
+                b = b.val if isinstance(b, TInt) else b
         if opn in ("Is", "IsNot"):
             r = self.identical(a, b)
             return r if opn == "Is" else (not r)
